@@ -7,6 +7,7 @@ import Driver.C01N
 import Driver.C02
 import Driver.C03
 import Driver.C04
+import Driver.C04B
 import Driver.C05
 import Driver.C05B
 import Driver.C06
@@ -35,6 +36,7 @@ def allHandlers : List (String × Handler) :=
   C02.handlers ++
   C03.handlers ++
   C04.handlers ++
+  C04B.handlers ++
   C05.handlers ++
   C05B.handlers ++
   C06.handlers ++
